@@ -51,8 +51,9 @@ def cases(tier, rng):
     # the class predicate of the known finding (model vs implementation), oversized radii over-represented
     yield 'rr_k06 0 0 4 29 0 0 0 0 9 51 0 0 5 7 1 0'
     yield 'rr_k06 -13 3 57 42 57 2 0 0 48 25 8 2 5 0 1 1'
-    for _ in range(n):
+    for _ in range(n if tier == 'quick' else n // 8):
         g = styled(rng)
+        g[2], g[3] = min(g[2], 40), min(g[3], 40)
         if rng.random() < 0.5:
             g[2], g[3] = rng.randrange(1, 40), rng.randrange(1, 40)
             g[4:12] = [rng.choice([0, rng.randrange(100)]) for _ in range(8)]
